@@ -4,6 +4,7 @@ import IgVerif.Model.Closed
 import IgVerif.Model.ModuleOrder
 import IgVerif.Gen.C19Proto
 import IgVerif.Model.Expr
+import IgVerif.Model.CondC
 /-! `igdriver <model>`: reads one op per line on stdin, prints one answer per line.
 Byte strings are hex ("-" = empty). -/
 open IgVerif
@@ -287,6 +288,72 @@ def exprStep (_ : Unit) (toks : List String) : IO (Unit × String) := do
     | _ => return ((), "bad-op")
   | _ => return ((), "bad-op")
 
+/-! conditional-inclusion programs: directives separated by `;`:
+`if SEXPR` `ifdef N` `ifndef N` `elif SEXPR` `elifdef N` `elifndef N` `else` `endif` `define N V` `undef N` `error` `include K` `text K`;
+expression s-expressions as for `eval`, plus `( ident N )` and `( defined N )`. -/
+def parseCE : Nat → List String → Option (Cond.CE × List String)
+  | 0, _ => none
+  | _+1, "(" :: "int" :: n :: ")" :: rest => some (.int (n.toInt?.getD 0), rest)
+  | _+1, "(" :: "ident" :: n :: ")" :: rest => some (.ident n, rest)
+  | _+1, "(" :: "defined" :: n :: ")" :: rest => some (.defined n, rest)
+  | fuel+1, "(" :: "un" :: op :: rest =>
+    match unOpOf op, parseCE fuel rest with
+    | some o, some (e, ")" :: rest') => some (.un o e, rest')
+    | _, _ => none
+  | fuel+1, "(" :: "bin" :: op :: rest =>
+    match binOpOf op, parseCE fuel rest with
+    | some o, some (a, rest1) =>
+      match parseCE fuel rest1 with
+      | some (b, ")" :: rest2) => some (.bin o a b, rest2)
+      | _ => none
+    | _, _ => none
+  | fuel+1, "(" :: "tern" :: rest =>
+    match parseCE fuel rest with
+    | some (c, rest1) =>
+      match parseCE fuel rest1 with
+      | some (a, rest2) =>
+        match parseCE fuel rest2 with
+        | some (b, ")" :: rest3) => some (.tern c a b, rest3)
+        | _ => none
+      | none => none
+    | none => none
+  | _, _ => none
+
+def parseDir (toks : List String) : Option (Cond.Dir Cond.MEnv) :=
+  match toks with
+  | "if" :: rest => (parseCE (rest.length + 1) rest).map fun p => .ifc (Cond.condExpr p.1)
+  | "elif" :: rest => (parseCE (rest.length + 1) rest).map fun p => .elifc (Cond.condExpr p.1)
+  | ["ifdef", n] => some (.ifc (Cond.condIfdef n))
+  | ["ifndef", n] => some (.ifc (Cond.condIfndef n))
+  | ["elifdef", n] => some (.elifc (Cond.condIfdef n))
+  | ["elifndef", n] => some (.elifc (Cond.condIfndef n))
+  | ["else"] => some .elsec
+  | ["endif"] => some .endif
+  | ["define", n, v] => some (.eff (Cond.effDefine n (v.toInt?.getD 0)))
+  | ["alias", n, t] => some (.eff (Cond.effAlias n t))
+  | ["undef", n] => some (.eff (Cond.effUndef n))
+  | ["error"] => some (.eff Cond.effError)
+  | ["include", k] => some (.eff (Cond.effInclude (k.toNat?.getD 0)))
+  | ["text", k] => some (.text (k.toNat?.getD 0))
+  | _ => none
+
+def splitOnTok (toks : List String) (sep : String) : List (List String) :=
+  let r := toks.foldl (fun (acc : List (List String) × List String) t =>
+    if t == sep then (acc.1 ++ [acc.2], []) else (acc.1, acc.2 ++ [t])) ([], [])
+  (r.1 ++ [r.2]).filter (fun l => !l.isEmpty)
+
+def condStep (_ : Unit) (toks : List String) : IO (Unit × String) := do
+  match toks with
+  | "cond" :: rest =>
+    let dirs := (splitOnTok rest ";").map parseDir
+    if dirs.any Option.isNone then return ((), "bad-op")
+    let prog := dirs.filterMap id
+    let out := Cond.run none ({} : Cond.MEnv) prog
+    let kept := ",".intercalate (out.2.map toString)
+    let incs := ",".intercalate (out.1.includes.map toString)
+    return ((), s!"kept={kept} errors={out.1.errors} includes={incs}")
+  | _ => return ((), "bad-op")
+
 def main (args : List String) : IO UInt32 := do
   let stdin ← IO.getStdin
   match args with
@@ -294,4 +361,5 @@ def main (args : List String) : IO UInt32 := do
   | ["order"] => loop stdin orderStep (); return 0
   | ["proto"] => loop stdin protoStep (); return 0
   | ["expr"] => loop stdin exprStep (); return 0
+  | ["cond"] => loop stdin condStep (); return 0
   | _ => IO.eprintln "usage: igdriver <model>"; return 2
